@@ -34,8 +34,8 @@ Definition imax (t : ity) : Z := if signed t then 2 ^ (bits t - 1) - 1 else 2 ^ 
 Definition in_range (t : ity) (z : Z) : bool := (imin t <=? z) && (z <=? imax t).
 
 (* ---- expressions ---- *)
-Inductive arith := Add | Sub | Mul | Div | Mod.
-Inductive cmp := Eq | Ne | Lt | Gt | Le | Ge.
+Inductive arith := AAdd | ASub | AMul | ADiv | AMod.
+Inductive cmp := CEq | CNe | CLt | CGt | CLe | CGe.
 
 Inductive expr :=
 | ELit (t : ity) (z : Z)          (* integer literal (digits, z >= 0) of integer type t *)
@@ -84,8 +84,8 @@ Definition prec (e : expr) : nat :=
   | ELit _ _ | ELitF _ _ | EVar _ | EParen _ | ECast _ _ => 0
   | EPow _ _ => 1
   | ENeg _ | ENot _ => 2
-  | EArith (Mul | Div | Mod) _ _ => 3
-  | EArith (Add | Sub) _ _ => 4
+  | EArith (AMul | ADiv | AMod) _ _ => 3
+  | EArith (AAdd | ASub) _ _ => 4
   | ECmp _ _ _ => 5
   | EAnd _ _ | EOr _ _ => 6
   end.
@@ -99,8 +99,8 @@ Fixpoint parens_ok (e : expr) : bool :=
   | EParen e | ECast _ e => parens_ok e
   | ENeg a | ENot a => parens_ok a && Nat.leb (prec a) 2
   | EPow a b => parens_ok a && parens_ok b && Nat.leb (prec a) 0 && Nat.leb (prec b) 2
-  | EArith (Mul | Div | Mod) a b => parens_ok a && parens_ok b && Nat.leb (prec a) 3 && Nat.leb (prec b) 2
-  | EArith (Add | Sub) a b => parens_ok a && parens_ok b && Nat.leb (prec a) 4 && Nat.leb (prec b) 3
+  | EArith (AMul | ADiv | AMod) a b => parens_ok a && parens_ok b && Nat.leb (prec a) 3 && Nat.leb (prec b) 2
+  | EArith (AAdd | ASub) a b => parens_ok a && parens_ok b && Nat.leb (prec a) 4 && Nat.leb (prec b) 3
   | ECmp _ a b => parens_ok a && parens_ok b && Nat.leb (prec a) 4 && Nat.leb (prec b) 4
   | EAnd a b => parens_ok a && parens_ok b && (Nat.leb (prec a) 5 || is_and a) && Nat.leb (prec b) 5
   | EOr a b => parens_ok a && parens_ok b && (Nat.leb (prec a) 5 || is_or a) && Nat.leb (prec b) 5
